@@ -58,9 +58,7 @@ def fam_server(w: World) -> None:
     if info['shape'] in ('single', 'batch') and ch.flag(1, 4, 'corrupt'):
         text, kind = S.corrupt_text(ch, text)
         w.fault(kind)
-    from .c01 import max_nesting
-    if max_nesting(text) > 64:
-        w.probe('nesting_beyond_quantifier_skipped')
+    if S.outside_quantifier(w, text):
         return
     n = len(info['doc']) if isinstance(info['doc'], list) else 1
     cfg = S.draw_config(ch, n, middlewares=True, handlers=True, force_async=False)
@@ -144,7 +142,7 @@ def fam_client(w: World) -> None:
 
 FAMILIES = {'twin.server': fam_server, 'twin.client': fam_client}
 PLAN = {
-    'quick': {'twin.server': 8000, 'twin.client': 8000},
+    'quick': {'twin.server': 40000, 'twin.client': 40000},
     'thorough': {'twin.server': 60000, 'twin.client': 60000},
 }
 THOROUGH_BUDGET_S = 600
